@@ -1,6 +1,7 @@
 import NoteSeqVerif.Proofs.C04
 import NoteSeqVerif.Proofs.C04_time
 import NoteSeqVerif.Proofs.C04_expand
+import NoteSeqVerif.Proofs.C04_repeats
 import NoteSeqVerif.Props.C04_keys
 import Mathlib.Tactic.Linarith
 import Mathlib.Tactic.Ring
@@ -444,15 +445,11 @@ theorem abc_isolation_book (R : Rat → Rat) (s0 : List Line) (ts1 ts2 : List (L
 example : parseTune id [.field (.refnum 2), .music [.note .none 'C' [] ⟨none, 0, none⟩, .chord]] =
     .error (.abc "ChordError") := by decide +kernel
 
-/-! ## abc_repeats (proved part: the RepeatParseError characterisation) -/
+/-! ## abc_repeats: which repeat layouts raise RepeatParseError -/
 
-/-- backward / forward counts a bar token notates: `:`×a `|` `:`×b plays the section before it a+1
-times and opens a section played b+1 times; a colon-only run of 2m colons is both, m+1 times -/
-def barCounts : Tok → Option (Option Nat × Option Nat)
-  | .bar c1 _ c2 => if c1 = 0 ∧ c2 = 0 then none
-                    else some (if 0 < c1 then some (c1 + 1) else none, if 0 < c2 then some (c2 + 1) else none)
-  | .colons n => some (some (n / 2 + 1), some (n / 2 + 1))
-  | _ => none
+/-! `barCounts t` (in `Proofs/C04_repeats.lean`): the backward / forward counts a bar token notates:
+`:`×a `|` `:`×b plays the section before it a+1 times and opens a section played b+1 times; a
+colon-only run of 2m colons is both, m+1 times. -/
 
 /-- Unbalanced / mismatched repeats raise RepeatParseError exactly as characterised: (1) a colon-only
 run with an odd number of colons; (2) a repeat token whose backward count differs from the count
@@ -506,7 +503,7 @@ theorem abc_repeat_errors (R : Rat → Rat) (st : St) (n : Nat) :
   · intro hh he
     simp [finishTune, hh, he]
 
-/-! ## abc_repeats (proved part: what the section structure expands to; full statement below) -/
+/-! ## abc_repeats: what a section structure expands to, and that the parsed one expands to the notated order -/
 
 /-- `expand_section_groups` (notes; exact arithmetic) on ANY sequence whose notes are partitioned by
 its section annotations — increasing section starts below the total time, every note starting
@@ -524,78 +521,57 @@ theorem abc_repeats_expansion (bs : List Block) (T : Rat) (groups : List (Int ×
 theorem abc_repeats_no_groups (R : Rat → Rat) (t : Tune) (h : t.groups = []) : expand R t = .ok t.notes := by
   simp [expand, h]
 
-/-- the "player": an independent reading of the bar tokens.  `played` = what has been played,
+/-! The notated repeat order is defined in `Proofs/C04_repeats.lean` by an independent "player"
+reading the bar tokens (`Player`, `playItem`, `playItems`, `unfold`): `played` = what has been played,
 `cur` = the notes since the most recent section start (start of tune, double bar outside a repeat,
-any repeat sign), `open_` = the count the open forward repeat asks for -/
-structure Player where
-  played : List (Int × Rat) := []
-  cur : List (Int × Rat) := []
-  open_ : Option Nat := none
+any repeat sign), `open_` = the count the open forward repeat asks for; at a repeat sign with
+backward count n the current section is appended n times (once for a sign without backward count or
+a double bar), and a backward count that differs from the open forward count is not a played order.
+`NonDegenerate`: every repeated section contains a note (no `:|` directly after a section start). -/
 
-/-- one item; `vals` are the (pitch, duration) of the notes still to come, in order -/
-def playItem (p : Player) (vals : List (Int × Rat)) : Item → Option (Player × List (Int × Rat))
-  | .tok (.note _ _ _ _) =>
-    match vals with
-    | v :: r => some ({ p with cur := p.cur ++ [v] }, r)
-    | [] => none
-  | .tok t =>
-    match barCounts t with
-    | some (b, f) =>
-      if p.open_.isSome ∧ b ≠ p.open_ then none
-      else some ({ played := p.played ++ (List.replicate (b.getD 1) p.cur).flatten, cur := [], open_ := f }, vals)
-    | none =>
-      match t with
-      | .bar _ len _ =>
-        if 2 ≤ len ∧ p.open_.isNone then some ({ p with played := p.played ++ p.cur, cur := [] }, vals)
-        else some (p, vals)
-      | _ => some (p, vals)
-  | _ => some (p, vals)
+/-- THE REPEAT CLAUSE, for every tune (any header, any token list, no size bound) without
+broken-rhythm tokens that the parser accepts, whose notes all have positive duration and whose
+repeats are non-degenerate: `expand_section_groups` succeeds on the parsed tune and its notes are, in
+pitch and duration, exactly the played order the bar tokens notate (`unfold`: at `:|`×n go back to
+the most recent section start n−1 times; double bars outside a repeat and repeat signs start
+sections).  Proof: invariant between the parser state (sections, section groups, expected repeat
+count) and the player state over the item list (`run_inv`), `_finalize_sections` (`finalize_inv`) and
+`abc_repeats_expansion`.  Exact arithmetic (`R = id`). -/
+theorem abc_repeats (lines : List Line) (tune : Tune) (h : parseTune id lines = .ok tune)
+    (hnb : ∀ i ∈ flatten lines, isBrokenItem i = false) (hpos : ∀ n ∈ tune.notes, n.start < n.end_)
+    (hnd : NonDegenerate (flatten lines)) :
+    ∃ L, expand id tune = .ok L ∧ unfold (flatten lines) (tune.notes.map pd) = some (L.map pd) :=
+  repeats_core lines tune h hnb hpos hnd
 
-def playItems : Player → List (Int × Rat) → List Item → Option Player
-  | p, _, [] => some p
-  | p, vals, i :: r =>
-    match playItem p vals i with
-    | some (p', vals') => playItems p' vals' r
-    | none => none
+/-- `C D |:: E F ::| G` -/
+abbrev repeatExample : List Line :=
+  [.field (.refnum 1), .music [.note .none 'C' [] ⟨none, 0, none⟩, .note .none 'D' [] ⟨none, 0, none⟩,
+    .bar 0 1 2, .note .none 'E' [] ⟨none, 0, none⟩, .note .none 'F' [] ⟨none, 0, none⟩, .bar 2 1 0,
+    .note .none 'G' [] ⟨none, 0, none⟩]]
 
-/-- the played order of a tune: at `:|`×n go back to the most recent section start n−1 times -/
-def unfold (items : List Item) (vals : List (Int × Rat)) : Option (List (Int × Rat)) :=
-  match playItems {} vals items with
-  | some p => if p.open_.isNone then some (p.played ++ p.cur) else none
-  | none => none
+/-- non-vacuity (parser side): the example parses to three sections and the groups 0×1, 1×3, 2×1 -/
+example : (parseTune id repeatExample).map (fun t => (t.sections.map (·.2), t.groups)) =
+    .ok ([0, 1, 2], [(0, 1), (1, 3), (2, 1)]) := by decide +kernel
 
-/-- every repeated section contains a note: no repeat sign directly after a section start -/
-def NonDegenerate (items : List Item) : Prop :=
-  ∀ pre t b f post, items = pre ++ .tok t :: post → barCounts t = some (some b, f) →
-    ∃ p vals, playItems {} vals pre = some p ∧ p.cur ≠ []
-
-/-- FULL STATEMENT of the repeat clause (not proved as one theorem; see `level_note`): for every tune
-without broken-rhythm tokens that the parser accepts, whose notes all have positive duration and
-whose repeats are non-degenerate, the expansion of the parsed section structure is the played
-order.  Proved parts: `abc_repeats_expansion` (what any section structure expands to),
-`abc_repeat_errors` (which repeat layouts are rejected); the remaining link — that the sections and
-groups `_parse_music_code` builds partition the notes as the player's sections do — is checked on
-every generated tune by the correspondence run and the oracle (player vs `expand_section_groups`
-of the real parser's output). -/
-def abc_repeats_statement : Prop :=
-  ∀ (lines : List Line) (tune : Tune), parseTune id lines = .ok tune →
-    (∀ i ∈ flatten lines, isBrokenItem i = false) → (∀ n ∈ tune.notes, n.start < n.end_) →
-    NonDegenerate (flatten lines) →
-    ∃ L, expand id tune = .ok L ∧ unfold (flatten lines) (tune.notes.map pd) = some (L.map pd)
-
-set_option maxRecDepth 100000 in
-/-- non-vacuity of the statement and of `abc_repeats_expansion`: `C D |:: E F ::| G` parses to three
-sections and groups 0×1, 1×3, 2×1, expands to C D E F E F E F G, which is the played order -/
-example :
-    (match parseTune id [.field (.refnum 1), .music [.note .none 'C' [] ⟨none, 0, none⟩, .note .none 'D' [] ⟨none, 0, none⟩,
-        .bar 0 1 2, .note .none 'E' [] ⟨none, 0, none⟩, .note .none 'F' [] ⟨none, 0, none⟩, .bar 2 1 0,
-        .note .none 'G' [] ⟨none, 0, none⟩]] with
-      | .ok t => (t.groups, (expand id t).map (·.map (·.pitch)),
-                  (unfold (flatten [Line.music [.note .none 'C' [] ⟨none, 0, none⟩, .note .none 'D' [] ⟨none, 0, none⟩,
-                    .bar 0 1 2, .note .none 'E' [] ⟨none, 0, none⟩, .note .none 'F' [] ⟨none, 0, none⟩, .bar 2 1 0,
-                    .note .none 'G' [] ⟨none, 0, none⟩]]) (t.notes.map pd)).map (·.map (·.1)))
-      | .error _ => ([], .ok [], none)) =
-    ([(0, 1), (1, 3), (2, 1)], .ok [60, 62, 64, 65, 64, 65, 64, 65, 67], some [60, 62, 64, 65, 64, 65, 64, 65, 67]) := by
-  decide +kernel
+/-- non-vacuity of `abc_repeats`: its hypotheses hold for `C D |:: E F ::| G`, so the expansion of the
+parsed tune is C D E F E F E F G -/
+example : ∃ tune L, parseTune id repeatExample = .ok tune ∧ expand id tune = .ok L ∧
+    (L.map pd).map (·.1) = [60, 62, 64, 65, 64, 65, 64, 65, 67] := by
+  have hb : (match parseTune id repeatExample with
+      | .ok t => t.notes.all (fun n => decide (n.start < n.end_)) &&
+          decide ((unfold (flatten repeatExample) (t.notes.map pd)).map (·.map (·.1)) =
+            some [60, 62, 64, 65, 64, 65, 64, 65, 67])
+      | .error _ => false) = true := by decide +kernel
+  cases hp : parseTune id repeatExample with
+  | error e => rw [hp] at hb; simp at hb
+  | ok tune =>
+    rw [hp] at hb
+    simp only [Bool.and_eq_true, decide_eq_true_eq, List.all_eq_true] at hb
+    obtain ⟨L, hL, hu⟩ := abc_repeats repeatExample tune hp (by decide +kernel) hb.1
+      (nonDegenerate_of_check (by decide +kernel))
+    refine ⟨tune, L, rfl, hL, ?_⟩
+    have h2 := hb.2
+    rw [hu] at h2
+    simpa using h2
 
 end NSV.C04
